@@ -503,6 +503,11 @@ class FuncAnalysis:
                 return set()
             if name in VIEW_METHODS:
                 return {r for r in recv if r[0] != "SELF"}
+            if name == "astype":
+                # astype(..., copy=False) returns the receiver itself when the type already matches: the result may alias it
+                ckw = [k for k in e.keywords if k.arg == "copy"]
+                if ckw and not (isinstance(ckw[0].value, ast.Constant) and ckw[0].value.value is True):
+                    return {r for r in recv if r[0] != "SELF"}
             if name in PURE_METHODS or not recv:
                 return set()
             self.s.undecided.append(Event("undecided", self.fname, lineno, "method .%s() on an object that may alias %s (not in the pure / view / mutating tables)" % (name, sorted(recv)), recv))
@@ -535,6 +540,13 @@ class FuncAnalysis:
                 self.s.sites.append(Site(self.fname, e.lineno, "passes a value to %s, which writes its parameter %s" % (qualname, p), bound[p]))
         for h in s.hidden:
             self.s.hidden.append(Event("hidden", self.fname, e.lineno, "calls %s: %s" % (qualname, h.what), set()))
+        # a callee that writes a module- or class-level object (a cache filled by a private helper) does so on behalf of its caller
+        seen_gl = set()
+        for site in s.sites:
+            gl = frozenset(r for r in site.roots if r[0] in ("G", "C"))
+            if gl and gl not in seen_gl:
+                seen_gl.add(gl)
+                self.s.sites.append(Site(self.fname, e.lineno, "calls %s, which writes the module- / class-level object %s (%s)" % (qualname, ", ".join(sorted(r[1] for r in gl)), site.what[:30]), set(gl)))
         for r in s.returns:
             if r[0] == "P" and r[1] in bound:
                 out |= bound[r[1]]
@@ -561,9 +573,19 @@ class FuncAnalysis:
             if isinstance(cp, ast.Constant) and cp.value is False and args:
                 return args[0]
             return set()
+        cp = next((k.value for k in e.keywords if k.arg == "copy"), None)
+        if cp is not None and not (isinstance(cp, ast.Constant) and cp.value is True) and args:
+            # a library function asked not to copy (copy=False, or a value not known to be True) works on / returns its argument:
+            # numpy.nan_to_num(x, copy=False) rewrites x in place, numpy.asarray-like conversions return x itself
+            if name in COPY_FALSE_WRITES:
+                self.s.sites.append(Site(self.fname, lineno, "%s(..., copy=False) rewrites its argument in place" % ".".join(ext), args[0]))
+            return args[0]
         if name in VIEW_FUNCS and args:
             return args[0]
         return set()
+
+
+COPY_FALSE_WRITES = {"nan_to_num"}
 
 
 def dict_copy(env):
